@@ -95,8 +95,11 @@ func newC18mServer() (*c18mServer, error) {
 						break
 					}
 				}
-				if cc.eof {
-					c.Write(cc.reply)
+				cc.mu.Lock()
+				reply, eof := cc.reply, cc.eof
+				cc.mu.Unlock()
+				if eof {
+					c.Write(reply)
 				}
 			}()
 		}
@@ -285,7 +288,9 @@ func TestVerif_C18Mesh(t *testing.T) {
 	r.Cases("conn", nconn, func(ci int, rng *verifkit.Rand) {
 		tag := fmt.Sprintf("%08x", uint32(rng.U64()))
 		sc := srv.get(tag)
+		sc.mu.Lock()
 		sc.reply = rng.Bytes(1 + rng.Intn(40000))
+		sc.mu.Unlock()
 		defer srv.forget(tag)
 		addr := fmt.Sprintf("127.0.0.1:%d", srv.Port)
 		ctx, cancel := context.WithTimeout(context.Background(), c18mWatchdog)
